@@ -572,6 +572,14 @@ fn build_ops(tier: Tier) -> Vec<Op> {
         }
     }
     let mut ops: Vec<Op> = prims.iter().map(|p| Op::P(*p)).collect();
+    // a transaction that commits the buffer as its last step (or before a last read) and then
+    // succeeds - what the decoder does at the end of every picture. (A commit inside a transaction
+    // that then *fails* is outside the documented contract and is not generated.)
+    for a in [Prim::Read32(1), Prim::Read32(7), Prim::Skip(8), Prim::Read32(17), Prim::Read32(9)] {
+        ops.push(Op::Tx(vec![Item::P(a), Item::P(Prim::Commit)], false));
+        ops.push(Op::Union(vec![Item::P(a), Item::P(Prim::Commit)], 0));
+        ops.push(Op::Tx(vec![Item::P(a), Item::P(Prim::Commit), Item::P(Prim::Read32(2))], false));
+    }
     for b in &bodies {
         ops.push(Op::Tx(b.clone(), false));
         ops.push(Op::Tx(b.clone(), true));
